@@ -148,7 +148,7 @@ func runCheck(prop, tier, only string, verbose bool) int {
 	if s := os.Getenv("VERIF_SEED"); s != "" {
 		seed, _ = strconv.ParseInt(s, 10, 64)
 	}
-	checkDeadline = t0.Add(45 * time.Minute)
+	checkDeadline = t0.Add(30 * time.Minute)
 	if tier == "thorough" {
 		checkDeadline = t0.Add(6 * time.Hour)
 	}
@@ -221,6 +221,7 @@ func runCheck(prop, tier, only string, verbose bool) int {
 		agg.NonTrivial += res.NonTrivial
 		agg.Folded += res.Folded
 		agg.Fallbacks += res.Fallbacks
+		agg.Diversified += res.Diversified
 		agg.Unknowns += res.Unknowns
 		agg.Merges += res.Merges
 		agg.MergeFails += res.MergeFails
@@ -439,6 +440,7 @@ func runTasks(prog *ssa.Program, pkg *ssa.Package, runs []*taskRun, openKnown ma
 			cfg.Asserts = r.spec.Asserts
 			cfg.StopFlag = &stopFlag
 			cfg.Deadline = checkDeadline
+			cfg.ViolAt = &firstViolationAt
 			cfg.Harness = r.spec.Harness
 			cfg.Args = r.args
 			cfg.KnownOpen = openKnown
@@ -509,29 +511,30 @@ func writeEvidence(prop, tier string, seed int64, spec PropSpec, agg *TaskResult
 	}
 	sort.Strings(kh)
 	cov := map[string]interface{}{
-		"states":                        agg.Paths,
-		"transitions":                   agg.Steps,
-		"traces_validated_against_impl": validated,
-		"samples":                       samples,
-		"evaluations":                   agg.Asserts,
-		"distinct_nontrivial":           agg.NonTrivial,
-		"rule":                          "one obligation per vassert per explored path; non-trivial = the negated goal still contains a free variable after simplification and was decided by the SMT solver; distinct = different (assertion id, goal term, path condition)",
-		"functions_encoded":             fns,
-		"harnesses":                     hs,
-		"tasks":                         len(runs),
-		"bounds":                        spec.Bounds[tier],
-		"outside_claim":                 spec.Outside,
-		"paths_by_outcome":              agg.EndKinds,
-		"obligations_folded":            agg.Folded,
-		"second_solver_verdicts":        agg.Fallbacks,
-		"queries":                       map[string]int{"total": agg.Solver.Queries, "unsat": agg.Solver.Unsat, "sat": agg.Solver.Sat, "unknown": agg.Solver.Unknown, "error_lines": agg.Solver.Errors},
-		"solver_time_s":                 agg.Solver.Time.Seconds(),
-		"max_query_s":                   agg.Solver.MaxQuery.Seconds(),
-		"diamond_merges":                agg.Merges,
-		"reach_witnesses":               reach,
-		"inconclusive":                  inconclusive,
-		"known_findings_reproduced":     kh,
-		"exhaustive":                    false,
+		"states":                              agg.Paths,
+		"transitions":                         agg.Steps,
+		"traces_validated_against_impl":       validated,
+		"samples":                             samples,
+		"evaluations":                         agg.Asserts,
+		"distinct_nontrivial":                 agg.NonTrivial,
+		"rule":                                "one obligation per vassert per explored path; non-trivial = the negated goal still contains a free variable after simplification and was decided by the SMT solver; distinct = different (assertion id, goal term, path condition)",
+		"functions_encoded":                   fns,
+		"harnesses":                           hs,
+		"tasks":                               len(runs),
+		"bounds":                              spec.Bounds[tier],
+		"outside_claim":                       spec.Outside,
+		"paths_by_outcome":                    agg.EndKinds,
+		"obligations_folded":                  agg.Folded,
+		"second_solver_verdicts":              agg.Fallbacks,
+		"violations_by_model_diversification": agg.Diversified,
+		"queries":                             map[string]int{"total": agg.Solver.Queries, "unsat": agg.Solver.Unsat, "sat": agg.Solver.Sat, "unknown": agg.Solver.Unknown, "error_lines": agg.Solver.Errors},
+		"solver_time_s":                       agg.Solver.Time.Seconds(),
+		"max_query_s":                         agg.Solver.MaxQuery.Seconds(),
+		"diamond_merges":                      agg.Merges,
+		"reach_witnesses":                     reach,
+		"inconclusive":                        inconclusive,
+		"known_findings_reproduced":           kh,
+		"exhaustive":                          false,
 	}
 	ev := map[string]interface{}{
 		"property_id": prop,
@@ -562,6 +565,7 @@ func droppedNames() []string {
 }
 
 // checkDeadline: a check that does not end is as useless as one that does not decide: after this much wall-clock time
-// (quick 45 min, thorough 6 h; the unchanged tree needs a fraction of it) the remaining exploration is abandoned and
+// (quick 30 min, thorough 6 h; the unchanged tree needs a fraction of it) the remaining exploration is abandoned and
 // the check ends INCONCLUSIVE unless a violation was already found
 var checkDeadline time.Time
+var firstViolationAt int64
